@@ -18,6 +18,9 @@ from concurrent.futures import ThreadPoolExecutor
 
 VERIF = os.path.dirname(os.path.dirname(os.path.abspath(__file__)))
 REPO = os.environ.get("VERIF_REPO", "/repo")
+# evidence/ and replays/ go under /verif; the self-test (lib/selftest.py) runs the checks against mutated scratch copies of the
+# repository and sends their output elsewhere, so that the registered evidence always describes /repo itself
+OUT = os.environ.get("VERIF_OUT", VERIF)
 JAR = "/opt/veriftools/tla/tla2tools.jar"
 CMJAR = "/opt/veriftools/tla/CommunityModules-deps.jar"
 NCPU = max(2, min(16, os.cpu_count() or 2))
@@ -312,10 +315,33 @@ def norm_where(where):
     return fn
 
 
+def case_facts(case):
+    """derived facts about a case that known-finding signatures may refer to (keys start with an underscore)"""
+    n = case.get("n", 0)
+    smap, fixed = case.get("smap") or [], case.get("fixed") or []
+    zero = False
+    for i in range(n):
+        if smap and i < len(smap) and smap[i][0] == 1:
+            w, h = smap[i][1], smap[i][2]
+        elif fixed:
+            w, h = fixed[0], fixed[1]
+        else:
+            w, h = 0, 0
+        if w == 0 or h == 0:
+            zero = True
+    # the spline router's corridor has a rectangle of zero width or height (zero-size node, no node or layer spacing),
+    # or the positioner is Brandes-Koepf, which is documented to ignore sizes (overlapping nodes: inverted rectangles)
+    degenerate = zero or case.get("ns") == 0 or case.get("ls") == 0
+    return {"_degenerate_corridor_or_bk": bool(degenerate or str(case.get("p4", "")).startswith("bk") or case.get("p4") == "noop")}
+
+
 def match_known(known, prop, clause, case, where=None):
     """returns the matching known-finding entry or None.
     kind "input":    the exact canonical input + options listed in the signature
     kind "callsite": the function in which the panic was raised / the process was stuck, plus option predicates"""
+    if case.get("nokf"):
+        # an input of regress/<prop>.json: it failed before a repair and passes since; no known finding may absorb it
+        return None
     for f in known.get("findings", []):
         if f.get("property") != prop:
             continue
@@ -331,14 +357,15 @@ def match_known(known, prop, clause, case, where=None):
         elif kind == "callsite":
             if where is not None and f["signature"].get("where") == norm_where(where):
                 pred = f["signature"].get("when", {})
-                if all(case.get(k) == v for k, v in pred.items()):
+                facts = case_facts(case)
+                if all((facts.get(k) if k.startswith("_") else case.get(k)) == v for k, v in pred.items()):
                     return f
     return None
 
 
 # --------------------------------------------------------------------------- evidence
 def write_evidence(prop, tier, seed, coverage, assumptions, wall, violations, level="model_checking"):
-    os.makedirs(os.path.join(VERIF, "evidence"), exist_ok=True)
+    os.makedirs(os.path.join(OUT, "evidence"), exist_ok=True)
     ev = {
         "property_id": prop,
         "tier": tier,
@@ -349,7 +376,7 @@ def write_evidence(prop, tier, seed, coverage, assumptions, wall, violations, le
         "wall_s": round(wall, 2),
         "violations": violations,
     }
-    p = os.path.join(VERIF, "evidence", prop + ".json")
+    p = os.path.join(OUT, "evidence", prop + ".json")
     tmp = p + ".tmp"
     with open(tmp, "w") as fh:
         json.dump(ev, fh, indent=1, sort_keys=True)
